@@ -64,11 +64,24 @@ pub trait HxTy: ProgramAccount + UnsizedType + Sized + 'static {
     fn shrink(w: &mut Excl<'_, Self>, field: usize, n: usize) -> star_frame::Result<()>;
     /// Overwrite the last `bytes.len()` bytes of a RemainingBytes field (no resize).
     fn paint(_w: &mut Excl<'_, Self>, _field: usize, _bytes: &[u8]) {}
-    fn view_excl(w: &Excl<'_, Self>) -> Vec<Vec<u8>>;
-    fn view_shared(w: &Shared<'_, Self>) -> Vec<Vec<u8>>;
+    fn view_excl(w: &Excl<'_, Self>, cap: usize) -> Vec<Vec<u8>>;
+    fn view_shared(w: &Shared<'_, Self>, cap: usize) -> Vec<Vec<u8>>;
 }
 
-fn ul_view(p: &<UnsizedList<List<u8>> as UnsizedType>::Ptr) -> Vec<u8> {
+/// Copy of a field's bytes; a length beyond the account's data length (only possible when the value is
+/// corrupt) is reported as a marker instead of being read.
+fn sv(s: &[u8], cap: usize) -> Vec<u8> {
+    if s.len() > cap {
+        vec![0xEE; 3]
+    } else {
+        s.to_vec()
+    }
+}
+
+fn ul_view(p: &<UnsizedList<List<u8>> as UnsizedType>::Ptr, cap: usize) -> Vec<u8> {
+    if p.len() > cap {
+        return vec![0xEE; 3];
+    }
     // one byte per element: its length (always 0 here), so `len()` of the view is the element count
     let mut v = vec![];
     for i in 0..p.len() {
@@ -95,11 +108,11 @@ impl HxTy for Two {
             _ => w.b().remove_range(0..n),
         }
     }
-    fn view_excl(w: &Excl<'_, Self>) -> Vec<Vec<u8>> {
-        vec![w.a.as_slice().to_vec(), w.b.as_slice().to_vec()]
+    fn view_excl(w: &Excl<'_, Self>, cap: usize) -> Vec<Vec<u8>> {
+        vec![sv(w.a.as_slice(), cap), sv(w.b.as_slice(), cap)]
     }
-    fn view_shared(w: &Shared<'_, Self>) -> Vec<Vec<u8>> {
-        vec![w.a.as_slice().to_vec(), w.b.as_slice().to_vec()]
+    fn view_shared(w: &Shared<'_, Self>, cap: usize) -> Vec<Vec<u8>> {
+        vec![sv(w.a.as_slice(), cap), sv(w.b.as_slice(), cap)]
     }
 }
 
@@ -133,11 +146,11 @@ impl HxTy for Tail {
             w.tail[l - bytes.len()..].copy_from_slice(bytes);
         }
     }
-    fn view_excl(w: &Excl<'_, Self>) -> Vec<Vec<u8>> {
-        vec![w.a.as_slice().to_vec(), w.tail.to_vec()]
+    fn view_excl(w: &Excl<'_, Self>, cap: usize) -> Vec<Vec<u8>> {
+        vec![sv(w.a.as_slice(), cap), sv(&w.tail, cap)]
     }
-    fn view_shared(w: &Shared<'_, Self>) -> Vec<Vec<u8>> {
-        vec![w.a.as_slice().to_vec(), w.tail.to_vec()]
+    fn view_shared(w: &Shared<'_, Self>, cap: usize) -> Vec<Vec<u8>> {
+        vec![sv(w.a.as_slice(), cap), sv(&w.tail, cap)]
     }
 }
 
@@ -167,11 +180,11 @@ impl HxTy for Ul {
             _ => w.b().remove_range(0..n),
         }
     }
-    fn view_excl(w: &Excl<'_, Self>) -> Vec<Vec<u8>> {
-        vec![vec![], w.a.as_slice().to_vec(), ul_view(&w.items), w.b.as_slice().to_vec()]
+    fn view_excl(w: &Excl<'_, Self>, cap: usize) -> Vec<Vec<u8>> {
+        vec![vec![], sv(w.a.as_slice(), cap), ul_view(&w.items, cap), sv(w.b.as_slice(), cap)]
     }
-    fn view_shared(w: &Shared<'_, Self>) -> Vec<Vec<u8>> {
-        vec![vec![], w.a.as_slice().to_vec(), ul_view(&w.items), w.b.as_slice().to_vec()]
+    fn view_shared(w: &Shared<'_, Self>, cap: usize) -> Vec<Vec<u8>> {
+        vec![vec![], sv(w.a.as_slice(), cap), ul_view(&w.items, cap), sv(w.b.as_slice(), cap)]
     }
 }
 
@@ -190,6 +203,23 @@ fn min_len(fields: &[FK]) -> usize {
 enum Live<'a, T: HxTy> {
     Excl(Excl<'a, T>),
     Shared(Shared<'a, T>),
+}
+
+/// Owns the live borrows of a case. If the harness itself unwinds (e.g. a view panicked on a value that a
+/// panicking mutation left half-written) the wrappers are leaked rather than dropped: their drop check could
+/// panic a second time, which aborts the process.
+struct LiveGuard<'a, T: HxTy>(BTreeMap<u32, Live<'a, T>>);
+impl<T: HxTy> LiveGuard<'_, T> {
+    fn leak_all(&mut self) {
+        for (_, w) in std::mem::take(&mut self.0) {
+            std::mem::forget(w);
+        }
+    }
+}
+impl<T: HxTy> Drop for LiveGuard<'_, T> {
+    fn drop(&mut self) {
+        self.leak_all();
+    }
 }
 
 fn counts(v: &[Vec<u8>]) -> String {
@@ -274,7 +304,9 @@ fn run_typed<T: HxTy>(rec: &mut Recorder, init_line: &str, lines: &[String]) {
         }
     };
     let mut o = Oracle { orig, writable, model: oracle_model, slack, excl_live: None, shared_live: vec![] };
-    let mut live: BTreeMap<u32, Live<'_, T>> = BTreeMap::new();
+    let mut guard: LiveGuard<'_, T> = LiveGuard(BTreeMap::new());
+    let live = &mut guard.0;
+    let mut poisoned = false;
     let mut next: u32 = 0;
     let mut grow_k: u64 = 0;
     let data_ptr = info.data_ptr() as usize;
@@ -285,6 +317,15 @@ fn run_typed<T: HxTy>(rec: &mut Recorder, init_line: &str, lines: &[String]) {
     let raw = toks[0] == "initraw";
 
     for l in lines {
+        if poisoned {
+            // a mutation panicked half-way or the view diverged from the oracle: the value may be corrupt,
+            // nothing further is meaningful (and touching it could abort the process)
+            for (_, w) in std::mem::take(live) {
+                std::mem::forget(w);
+            }
+            rec.op(l, "poisoned");
+            continue;
+        }
         let t: Vec<&str> = l.split(' ').collect();
         let state = |w: &World| format!("len={} delta={} bs={:02x}", w.info(0).data_len(), w.info(0).resize_delta(), w.borrow_state(0));
         match t.as_slice() {
@@ -311,7 +352,7 @@ fn run_typed<T: HxTy>(rec: &mut Recorder, init_line: &str, lines: &[String]) {
                         }
                     }
                     Ok(Ok(w)) => {
-                        let seen = T::view_excl(&w);
+                        let seen = T::view_excl(&w, info.data_len());
                         let rng = ExclusiveWrapper::range(&w).clone();
                         let ans = format!(
                             "ok h={next} {} rng={}..{} f={}",
@@ -322,10 +363,15 @@ fn run_typed<T: HxTy>(rec: &mut Recorder, init_line: &str, lines: &[String]) {
                         );
                         rec.op(l, &ans);
                         rec.bump("borrow_mut:ok");
-                        if conflict || !o.writable {
-                            rec.fail("overlap_admitted", &format!("{l} succeeded while excl={:?} shared={:?} writable={}", o.excl_live, o.shared_live, o.writable));
+                        if conflict {
+                            rec.fail("overlap_admitted", &format!("{l} succeeded while excl={:?} shared={:?}", o.excl_live, o.shared_live));
                         }
-                        check_view(rec, &o, &seen, fields, info.data_len(), info.resize_delta(), l);
+                        if !o.writable {
+                            rec.fail("mut_borrow_of_readonly_admitted", l);
+                        }
+                        if !check_view(rec, &o, &seen, fields, info.data_len(), info.resize_delta(), l) {
+                            poisoned = true;
+                        }
                         if resized_since_borrow {
                             reborrows_after_resize += 1;
                             resized_since_borrow = false;
@@ -356,13 +402,15 @@ fn run_typed<T: HxTy>(rec: &mut Recorder, init_line: &str, lines: &[String]) {
                         }
                     }
                     Ok(Ok(w)) => {
-                        let seen = T::view_shared(&w);
+                        let seen = T::view_shared(&w, info.data_len());
                         rec.op(l, &format!("ok h={next} {} f={}", state(&world), counts(&seen)));
                         rec.bump("borrow:ok");
                         if o.excl_live.is_some() {
                             rec.fail("overlap_admitted", &format!("{l} succeeded while an exclusive borrow is live"));
                         }
-                        check_view(rec, &o, &seen, fields, info.data_len(), info.resize_delta(), l);
+                        if !check_view(rec, &o, &seen, fields, info.data_len(), info.resize_delta(), l) {
+                            poisoned = true;
+                        }
                         if resized_since_borrow {
                             reborrows_after_resize += 1;
                             resized_since_borrow = false;
@@ -417,7 +465,7 @@ fn run_typed<T: HxTy>(rec: &mut Recorder, init_line: &str, lines: &[String]) {
                 }
                 let bytes = if fields[f] == FK::UList { vec![0u8; n] } else { pattern(grow_k, n) };
                 grow_k += 1;
-                let before = (info.data_len(), info.resize_delta(), T::view_excl(w));
+                let before = (info.data_len(), info.resize_delta(), T::view_excl(w, info.data_len()));
                 let byte_change = fields[f].width(n) - fields[f].width(0);
                 let fits = !grow || before.0 + byte_change <= o.orig + MAXINC;
                 let r = hx_common::catch(|| if grow { T::grow(w, f, &bytes) } else { T::shrink(w, f, n) });
@@ -425,6 +473,10 @@ fn run_typed<T: HxTy>(rec: &mut Recorder, init_line: &str, lines: &[String]) {
                     Err(_) => {
                         rec.op(l, "panic");
                         rec.fail(if grow { "panic_on_grow" } else { "panic_on_shrink" }, &format!("{l} at len {} orig {}", before.0, o.orig));
+                        poisoned = true;
+                        for (_, w) in std::mem::take(live) {
+                            std::mem::forget(w);
+                        }
                     }
                     Ok(Err(e)) => {
                         let c = err_class(e);
@@ -434,7 +486,7 @@ fn run_typed<T: HxTy>(rec: &mut Recorder, init_line: &str, lines: &[String]) {
                         if fits {
                             rec.fail("growth_refused", &format!("{l} -> {c} at len {} orig {}", before.0, o.orig));
                         }
-                        let after = (info.data_len(), info.resize_delta(), T::view_excl(w));
+                        let after = (info.data_len(), info.resize_delta(), T::view_excl(w, info.data_len()));
                         if after != before {
                             rec.fail("err_changed_state", &format!("{l} -> {c} but len {}->{} delta {}->{}", before.0, after.0, before.1, after.1));
                         }
@@ -443,7 +495,7 @@ fn run_typed<T: HxTy>(rec: &mut Recorder, init_line: &str, lines: &[String]) {
                         if grow {
                             if fields[f] == FK::Rem {
                                 // the runtime zero-fills the grown region: check it, then paint it
-                                let v = T::view_excl(w);
+                                let v = T::view_excl(w, info.data_len());
                                 if v[f][v[f].len() - n..].iter().any(|b| *b != 0) {
                                     rec.fail("growth_not_zero_filled", l);
                                 }
@@ -456,7 +508,7 @@ fn run_typed<T: HxTy>(rec: &mut Recorder, init_line: &str, lines: &[String]) {
                         } else {
                             model[f].drain(0..n);
                         }
-                        let seen = T::view_excl(w);
+                        let seen = T::view_excl(w, info.data_len());
                         rec.op(l, &format!("ok len={} delta={} f={}", info.data_len(), info.resize_delta(), counts(&seen)));
                         rec.bump(&format!("{op}:ok"));
                         if !fits {
@@ -466,11 +518,18 @@ fn run_typed<T: HxTy>(rec: &mut Recorder, init_line: &str, lines: &[String]) {
                             resized_since_borrow = true;
                         }
                         max_shrink = max_shrink.max(o.orig as i64 - info.data_len() as i64);
-                        check_view(rec, &o, &seen, fields, info.data_len(), info.resize_delta(), l);
+                        if !check_view(rec, &o, &seen, fields, info.data_len(), info.resize_delta(), l) {
+                            poisoned = true;
+                        }
                     }
                 }
             }
             _ => rec.op(l, "bad-op"),
+        }
+    }
+    if poisoned {
+        for (_, w) in std::mem::take(live) {
+            std::mem::forget(w);
         }
     }
     // release whatever is still live (unobserved by the model; panics here still count)
@@ -481,12 +540,12 @@ fn run_typed<T: HxTy>(rec: &mut Recorder, init_line: &str, lines: &[String]) {
             rec.fail("panic_on_release", &format!("end-of-case release of h={h}"));
         }
     }
-    if world.borrow_state(0) != 0xff {
+    if !poisoned && world.borrow_state(0) != 0xff {
         rec.fail("borrow_flag_leak", &format!("end of case: borrow byte {:02x}", world.borrow_state(0)));
     }
     // final raw-bytes check: the account holds exactly the model's serialization (when there is no slack)
     if let Some(m) = &o.model {
-        if !raw && world.raw_data(0) != remake::<T>(m, &world.raw_data(0)) {
+        if !raw && !poisoned && world.raw_data(0) != remake::<T>(m, &world.raw_data(0)) {
             rec.fail("stale_view", "final account bytes differ from the serialized model");
         }
     }
@@ -503,17 +562,26 @@ fn remake<T: HxTy>(m: &[Vec<u8>], _cur: &[u8]) -> Vec<u8> {
     T::make(m)
 }
 
-fn check_view(rec: &mut Recorder, o: &Oracle, seen: &[Vec<u8>], fields: &[FK], len: usize, delta: i32, l: &str) {
-    let Some(m) = &o.model else { return rec.fail("borrow_of_unparseable_account", l) };
+/// Returns false when the implementation's view or sizes differ from the oracle (the value can no longer be trusted).
+fn check_view(rec: &mut Recorder, o: &Oracle, seen: &[Vec<u8>], fields: &[FK], len: usize, delta: i32, l: &str) -> bool {
+    let Some(m) = &o.model else {
+        rec.fail("borrow_of_unparseable_account", l);
+        return false;
+    };
+    let mut ok = true;
     if seen != m.as_slice() {
+        ok = false;
         rec.fail("stale_view", &format!("{l}: value seen through the borrow differs from the Vec model (counts {} vs {})", counts(seen), counts(m)));
     }
     if Some(len) != o.len(fields) {
+        ok = false;
         rec.fail("len_mismatch", &format!("{l}: data_len {len}, model {:?}", o.len(fields)));
     }
     if delta as i64 != len as i64 - o.orig as i64 {
+        ok = false;
         rec.fail("delta_mismatch", &format!("{l}: resize_delta {delta}, len {len}, orig {}", o.orig));
     }
+    ok
 }
 
 fn bad_all(rec: &mut Recorder, init_line: &str, lines: &[String]) {
@@ -646,7 +714,21 @@ impl Gen {
     }
 }
 
+thread_local! {
+    static PROGRESS: std::cell::RefCell<Option<std::path::PathBuf>> = const { std::cell::RefCell::new(None) };
+}
+
+/// Tell the supervisor which case is about to run (see main.rs).
+fn announce(header: &str, lines: &[String]) {
+    PROGRESS.with(|p| {
+        if let Some(p) = &*p.borrow() {
+            let _ = std::fs::write(p, format!("{header}\n{}\n", lines.join("\n")));
+        }
+    });
+}
+
 fn emit(rec: &mut Recorder, header: &str, lines: &[String]) {
+    announce(header, lines);
     rec.case(header);
     run_case(rec, lines);
     rec.sample_current(4);
@@ -938,12 +1020,15 @@ pub fn run(args: &Args) {
          read-only), then PRNG histories. A case is non-trivial when a borrow succeeded after a size change, or a \
          conflicting borrow / over-growth was refused; distinct by case text hash.",
     );
+    PROGRESS.with(|p| *p.borrow_mut() = Some(args.out.join("current_case.txt")));
     if let Some(cases) = args.replay_cases() {
         for c in cases {
             if c[0].starts_with("case") {
+                announce(&c[0], &c[1..]);
                 rec.case(&c[0]);
                 run_case(&mut rec, &c[1..]);
             } else {
+                announce("case replay", &c);
                 rec.case("case replay");
                 run_case(&mut rec, &c);
             }
@@ -961,6 +1046,7 @@ pub fn run(args: &Args) {
         let a = Args { replay: Some(p.clone()), ..args.clone() };
         for c in a.replay_cases().unwrap_or_default() {
             if c[0].starts_with("case") {
+                announce(&c[0], &c[1..]);
                 rec.case(&c[0]);
                 run_case(&mut rec, &c[1..]);
                 rec.bump("corpus_case");
